@@ -83,6 +83,8 @@ def generate(tier, rng):
     yield c
     c = _case(rng, kind, [2, 5])        # a round without clients in the middle of a run
     c['rounds'] = [[['0', 1], ['1', 2]], [], [['1', 5], ['0', 7]]]
+    if kind in ('mime_gen', 'mimelite_gen'):
+      c['copt'] = SGD(0.25, 0.5)        # a stateful base optimizer: its state after the empty round matters later
     yield c
   for i in range(reps):
     for kind in KINDS:
